@@ -1,5 +1,6 @@
 // C17 - the large-diagonal row permutation is a max-product matching with unit scaling (?ldperm job 5).
 #include "drive.hpp"
+#include "isolate.hpp"
 
 namespace vf {
 
@@ -20,7 +21,6 @@ template <class T> static void run_T(Choice &c, Ctx &cx)
     if (wide >= 4) { int K = single ? 30 : (wide == 5 ? 400 : 120); for (auto &col : G.col) for (auto &e : col) { unsigned b = c.u8(); int s = (wide == 5 && (b & 0x80)) ? ((b & 1) ? K : -K) : zigzag((uint8_t)b, K); e.second.re = std::ldexp(e.second.re, s); e.second.im = std::ldexp(e.second.im, s); } G.vkind += "+wide"; }
     // explicit zeros are outside MC64's input contract ("the numerical values of the nonzero entries"): remove them
     for (auto &col : G.col) { std::vector<std::pair<int, Val>> keep; for (auto &e : col) if (e.second.re != 0 || e.second.im != 0) keep.push_back(e); col.swap(keep); }
-    if (getenv("VF_C17_JITTER")) { int q = 0; for (auto &col : G.col) for (auto &e : col) { ++q; e.second.re *= 1.0 + q * std::ldexp(1.0, -18); e.second.im *= 1.0 + q * std::ldexp(1.0, -18); } }   // experiment: break ties
     bool exsing = maybe_exactly_singular(G);
     cx.label(exsing ? "numerically-singular" : "numerically-nonsingular");
     Comp<T> S = to_comp<T>(G, false, c.chance(128) ? &c : nullptr);
@@ -46,6 +46,19 @@ template <class T> static void run_T(Choice &c, Ctx &cx)
     int msize = max_matching(nzcols, n);
     cx.label(msize == n ? "struct-nonsingular" : "struct-singular");
 
+    // Known finding F-MC64, continued: on inputs with ties MC64's shortest-path search can also leave its tree arrays
+    // inconsistent, and then follows uninitialised entries of OUT/PR (SEGV in mc64wd_) or returns a "matching" that is not a
+    // bijection.  While the finding is open a tie-holding input is first tried in a child process; if the child dies there
+    // the case is counted under the finding and not run here.
+    if (tie_class && !in_child()) {
+        Comp<T> Sc = S; int n_ = n;
+        IsoResult pr = run_isolated(cx, [&](Ctx &) {
+            vf_case_begin(cx.fill(0xA5));
+            std::vector<int> pp(n_ + 1, -9); std::vector<R> uu_(n_ + 1, (R)0), vv_(n_ + 1, (R)0);
+            guarded([&] { Tr<T>::ldperm(5, n_, Sc.nnz(), Sc.ptr.data(), Sc.idx.data(), Sc.val.data(), pp.data(), uu_.data(), vv_.data()); });
+        }, 20);
+        if (pr.status != IsoResult::OK) { cx.exclude("F-MC64"); cx.label(pr.status == IsoResult::HANG ? "F-MC64:no-return(in MC64)" : "F-MC64:crash(in MC64)"); return; }
+    }
     vf_case_begin(cx.fill(0xA5));
     std::vector<int_t> idx0 = S.idx, ptr0 = S.ptr; std::vector<T> val0 = S.val;
     std::vector<int> perm(n + 1, -9); std::vector<R> u(n + 1, (R)-55), v(n + 1, (R)-55);
@@ -59,6 +72,7 @@ template <class T> static void run_T(Choice &c, Ctx &cx)
     if (msize < n) { VF_REQUIRE(cx, ret != 0, "singular-not-reported", "the matrix has no zero-free diagonal (maximum matching %d < %d) but ldperm returned 0", msize, n); cx.nontrivial = n >= 3; return; }
     if (!(ret == 0 || ret == 2) && tie_class && ret == 1) { cx.exclude("F-MC64"); cx.label("F-MC64:reported-singular"); return; }
     VF_REQUIRE(cx, ret == 0 || ret == 2, "return-value", "structurally nonsingular matrix (perfect matching exists) but ldperm returned %d", ret);
+    if (tie_class && !is_perm(perm.data(), n)) { cx.exclude("F-MC64"); cx.label("F-MC64:perm-not-a-bijection"); return; }
     VF_REQUIRE(cx, is_perm(perm.data(), n), "perm", "perm is not a bijection: %s", vec_str(std::vector<int>(perm.begin(), perm.begin() + n)).c_str());
     if (ret == 2) { cx.label("scaling-may-overflow(warning)"); return; }
     LD uu = (LD)Tr<T>::eps();
